@@ -75,7 +75,7 @@ def nullableAt (f : FieldDef) (v : Nat) : Bool :=
 
 /-- `PrimitiveField.is_nullable(version)` -/
 def primNullable (f : FieldDef) (k : KType) (v : Nat) : Bool :=
-  if isFixedNumeric k then false
+  if neverNullable k then false
   else ((tagAt f v).isSome && f.ignorable && f.dflt.isNone)
        || nullableAt f v
        || (k == .datetimeI64 && f.dflt == some (strOf "-1"))
